@@ -78,7 +78,11 @@ def infer_dataframe_schema(df: pd.DataFrame) -> DataFrameSchema:
                 checks=parse_check_statistics(properties["checks"]),
                 nullable=properties["nullable"],
             )
-            for colname, properties in df_statistics["columns"].items()
+            for colname, properties in (
+                # a dataframe without columns has no column statistics
+                df_statistics["columns"]
+                or {}
+            ).items()
         },
         index=_create_index(df_statistics["index"]),
         coerce=True,
